@@ -550,7 +550,7 @@ def check_C10(R):
     lean_step(R, "C10")
     if harness_step(R):
         seq_step(R, "C10")
-        conc_step(R, "C10", modes=("resize", "treeresize"), merge=True)
+        conc_step(R, "C10", modes=("resize", "treeresize", "first"), merge=True)
         stress_step(R, "C10")
 
 
